@@ -13,5 +13,7 @@ func TestWorld(t *testing.T) {
 		"C29": runC29,
 		"C34": runC34,
 		"C33": runC33,
+		"C31": runC31,
+		"C32": runC32,
 	})
 }
